@@ -78,8 +78,8 @@ class Outcome:
 
 class FunctionSpec:
     def __init__(self, qual, file, params, returns=None, requires=None, ensures=None, modifies=(), raises=None, loops=None,
-                 locals=None, decreases=None, generator=False, defaults=None, cls=None, ghost=None, pure=False, note='', name=None, constructs=None):
-        self.name = name or qual; self.constructs = constructs
+                 locals=None, decreases=None, generator=False, defaults=None, cls=None, ghost=None, pure=False, note='', name=None, constructs=None, globals_=None, isinstance_preds=None):
+        self.name = name or qual; self.constructs = constructs; self.globals_ = globals_ or {}; self.isinstance_preds = isinstance_preds or {}
         self.qual, self.file, self.params, self.returns = qual, file, params, returns
         self.requires = requires or (lambda o: BoolVal(True)); self.ensures = ensures or (lambda o, n, r: [])
         self.modifies = list(modifies); self.raises = raises or {}; self.loops = loops or {}; self.locals = locals or {}
@@ -228,6 +228,7 @@ class Engine:
                 st.env[pname] = PNone(); old[pname] = None; continue
             v = self.from_term(st, t, Const('p_' + pname, t.sort()), frozen=False); st.env[pname] = v; old[pname] = self.term(st, v)
             if isinstance(v, PRef): self.param_roots[pname] = v.root
+        for gname, (gt, gterm) in spec.globals_.items(): st.env[gname] = PV(gt, gterm)          # module-level constants the body reads (e.g. numpy.inf)
         self.old = old
         for gname, mk in spec.ghost.items(): old[gname] = mk(old)
         st.pc.append(spec.requires(old))
